@@ -434,7 +434,7 @@ pub fn cell(spec: &Value) -> Value {
 }
 
 pub fn check(tier: Tier) -> Outcome {
-    let depth = if tier == Tier::Quick { 5 } else { 6 };
+    let depth = if tier == Tier::Quick { 5 } else { 7 };
     let mut cells = vec![];
     for size in 0..=3u64 {
         for chunk in 1..=3u64 {
